@@ -20,47 +20,50 @@ var c28Common = []string{"", "-1", "0", "1", "2", "99999999999999999999", "-n", 
 
 // c28Specific are the extra symbols per builtin.
 var c28Specific = map[string][]string{
-	"read":     {"-r", "-s", "-d", "-ra"},
-	"mapfile":  {"-t", "-d", "-td"},
+	"read":      {"-r", "-s", "-d", "-ra"},
+	"mapfile":   {"-t", "-d", "-td"},
 	"readarray": {"-t", "-d"},
-	"getopts":  {":a", "-ab", "-b"},
-	"trap":     {"EXIT", "ERR", "-l", "echo t"},
-	"set":      {"-e", "-o", "+o", "errexit", "nosuch", "-eu"},
-	"shopt":    {"-s", "-u", "-o", "globstar", "nosuch", "errexit", "-q"},
-	"unset":    {"-f", "x", "a[0]", "a[-1]", "a[x", "PWD", "f"},
-	"type":     {"-t", "-P", "-f", "cd", "if", "f"},
-	"command":  {"-V", "cd", "nosuch", "shift"},
-	"builtin":  {"cd", "nosuch", "shift"},
-	"wait":     {"g1", "g0", "g2", "%1", "-f"},
-	"pushd":    {"+1", "-0", ".", "/", "d", "nosuch"},
-	"popd":     {"+1", "-0"},
-	"dirs":     {"-c", "-l"},
-	"cd":       {".", "/", "d", "nosuch", "..", "-L"},
-	"pwd":      {"-L", "-P", "-LP"},
-	"test":     {"-f", "-z", "=", "-eq", "!", "(", ")", "-o", "-nt", "f", "=~", "<"},
-	"[":        {"-f", "-z", "=", "-eq", "!", "(", ")", "-o", "-nt", "f", "=~", "<", "]"},
-	"printf":   {"%d", "%s", "%5.3s", "%q", "%*d", "%c", `\x4`, "%(%Y)T", "%n", "%", "%-", "%b", `\`, "%x", "%e", "%u", "%.*s", "%99999999999999999999d"},
-	"echo":     {"-e", "-E", "-ne", `\c`, `\x`, `\0777`, `\u12`, `\`},
-	"declare":  {"-A", "-i", "-r", "-g", "-f", "-F", "a=(1 2)", "-ar", "r=x", "f"},
-	"typeset":  {"-A", "-i", "-r", "-g", "-f", "a=(1 2)", "r=x"},
-	"local":    {"-A", "-i", "-r", "a=(1 2)", "r=x", "l"},
-	"export":   {"-f", "a=(1 2)", "r=x", "-nx"},
-	"readonly": {"-f", "-A", "a=(1 2)", "r=x", "l"},
-	"nameref":  {"r=x", "r=r", "a=a[1]"},
-	"let":      {"x=1", "1/0", "x++", "a[1]=2", "1 +", "**", "x=(", "2**-1"},
-	"exit":     {"256", "-0", "0x1"},
-	"return":   {"256", "-0", "0x1"},
-	"break":    {"-0", "0x1", " 1"},
-	"continue": {"-0", "0x1", " 1"},
-	"shift":    {"-0", "+1", " 1"},
-	"alias":    {"a=b", "a=(", "a= ", "a='"},
-	"unalias":  {"-a"},
-	"source":   {"f", "nosuch", "/dev/null", "d", "g"},
-	".":        {"f", "nosuch", "/dev/null", "d", "g"},
-	"eval":     {"echo x", "(", "a=1", "return", "shift -1"},
-	"exec":     {"true", "nosuch", "-c"},
-	"help":     {"cd", "-s", "nosuch"},
+	"getopts":   {":a", "-ab", "-b"},
+	"trap":      {"EXIT", "ERR", "-l", "echo t"},
+	"set":       {"-e", "-o", "+o", "errexit", "nosuch", "-eu"},
+	"shopt":     {"-s", "-u", "-o", "globstar", "nosuch", "errexit", "-q"},
+	"unset":     {"-f", "x", "a[0]", "a[-1]", "a[x", "PWD", "f"},
+	"type":      {"-t", "-P", "-f", "cd", "if", "f"},
+	"command":   {"-V", "cd", "nosuch", "shift"},
+	"builtin":   {"cd", "nosuch", "shift"},
+	"wait":      {"g1", "g0", "g2", "%1", "-f"},
+	"pushd":     {"+1", "-0", ".", "/", "d", "nosuch"},
+	"popd":      {"+1", "-0"},
+	"dirs":      {"-c", "-l"},
+	"cd":        {".", "/", "d", "nosuch", "..", "-L"},
+	"pwd":       {"-L", "-P", "-LP"},
+	"test":      {"-f", "-z", "=", "-eq", "!", "(", ")", "-o", "-nt", "f", "=~", "<"},
+	"[":         {"-f", "-z", "=", "-eq", "!", "(", ")", "-o", "-nt", "f", "=~", "<", "]"},
+	"printf":    {"%d", "%s", "%5.3s", "%q", "%*d", "%c", `\x4`, "%(%Y)T", "%n", "%", "%-", "%b", `\`, "%x", "%e", "%u", "%.*s", "%99999999999999999999d"},
+	"echo":      {"-e", "-E", "-ne", `\c`, `\x`, `\0777`, `\u12`, `\`},
+	"declare":   {"-A", "-i", "-r", "-g", "-f", "-F", "a=(1 2)", "-ar", "r=x", "r=", "f"},
+	"typeset":   {"-A", "-i", "-r", "-g", "-f", "a=(1 2)", "r=x", "r="},
+	"local":     {"-A", "-i", "-r", "a=(1 2)", "r=x", "l"},
+	"export":    {"-f", "a=(1 2)", "r=x", "-nx"},
+	"readonly":  {"-f", "-A", "a=(1 2)", "r=x", "l"},
+	"nameref":   {"r=x", "r=r", "r=", "a=a[1]"},
+	"let":       {"x=1", "1/0", "x++", "a[1]=2", "1 +", "**", "x=(", "2**-1"},
+	"exit":      {"256", "-0", "0x1"},
+	"return":    {"256", "-0", "0x1"},
+	"break":     {"-0", "0x1", " 1"},
+	"continue":  {"-0", "0x1", " 1"},
+	"shift":     {"-0", "+1", " 1"},
+	"alias":     {"a=b", "a=(", "a= ", "a='"},
+	"unalias":   {"-a"},
+	"source":    {"f", "nosuch", "/dev/null", "d", "g"},
+	".":         {"f", "nosuch", "/dev/null", "d", "g"},
+	"eval":      {"echo x", "(", "a=1", "return", "shift -1"},
+	"exec":      {"true", "nosuch", "-c"},
+	"help":      {"cd", "-s", "nosuch"},
 }
+
+// c28TestAlpha is the operand alphabet of the longer test expressions.
+var c28TestAlpha = []string{"-z", "-f", "=", "!", "(", ")", "-o", "a", "", "-eq"}
 
 // c28DeclKeywords are parsed as declaration clauses; their arguments are
 // generated both unquoted (static assignments) and quoted (expanded at run
@@ -141,7 +144,7 @@ func c28Call(name string, args []string, mode int) string {
 }
 
 // c28Epilogue observes the state a call left behind.
-const c28Epilogue = `echo $? $# "$@" "$x" "${a[@]}" "${!a[@]}" ${#a[@]} $OPTIND $OPTARG $o $v $REPLY "${MAPFILE[@]}" $PWD $-; dirs; getopts ab: o; shift`
+const c28Epilogue = `echo $? $# "$@" "$x" "${a[@]}" "${!a[@]}" ${#a[@]} $OPTIND $OPTARG $o $v $r $REPLY "${MAPFILE[@]}" $PWD $-; dirs; getopts ab: o; shift`
 
 // c28Wrap puts the command text into one of the three setups.
 func c28Wrap(setup int, body string) string {
@@ -197,7 +200,7 @@ func c28Stateful(full bool) []c28Item {
 	add(true, "mapfile a", "mapfile -t x")
 	add(false, "mapfile", "mapfile -d '' a", "mapfile -d", "readarray -t a", "mapfile 1x", "mapfile a b")
 	add(true, "local v=1", "local -a a", "declare -A a", "declare -n r=a", "a=(1 2)", "a[5]=1", "x=1", "declare -a x=([3]=c [1]=a)")
-	add(false, "local v", "declare -a a", "declare -A x", "declare -n r=r", "declare -r v", "a[-1]=z", "a+=(q)", "a+=s", "declare -i v", "declare -p a", "declare -p", "declare -f f",
+	add(false, "local v", "declare -a a", "declare -A x", "declare -n r=r", "declare -n r=", "declare -r v", "a[-1]=z", "a+=(q)", "a+=s", "declare -i v", "declare -p a", "declare -p", "declare -f f",
 		"declare -x a", "export a", "readonly a", "declare -g v=2", "declare -n a=x", "local -", "declare -A a=([k]=v)", "x=(1 2 3)",
 		`echo ${a[@]} ${!a[@]} ${#a[@]} ${x[1]} ${a[@]:1:2} ${x[@]: -1}`, `echo ${a[-1]}`, `echo ${r} ${!r} ${r[0]}`, "r=5", "r+=(1)")
 	add(true, "unset a", "unset 'a[0]'", "unset 'a[-1]'", "unset x", "unset 'x[1]'", "unset r")
